@@ -27,7 +27,7 @@ def one(p):
             return name, "DOES NOT BUILD: " + r.stderr[:200]
         fired = {}
         for prop in props:
-            r = subprocess.run([os.path.join(HERE, "bin", "otterlint"), "-property", prop, "-repo", s, "-verif", HERE, "-no-evidence"], capture_output=True, text=True, env=ENV)
+            r = subprocess.run([os.environ.get("OTTERLINT") if os.environ.get("OTTERLINT","x")!="x" else os.path.join(HERE, "bin", "otterlint"), "-property", prop, "-repo", s, "-verif", HERE, "-no-evidence"], capture_output=True, text=True, env=ENV)
             if r.returncode == 2:
                 fired.setdefault(prop, set()).add("CHECKER-BROKEN")
             for line in r.stdout.split("\n"):
